@@ -23,14 +23,17 @@
       resolution loop ends with the same verdict class (accepted / no progress / error) and the same
       resolved value for every input item (simulation of [resolve_loop] by the abstract loop,
       OrderIndep.v);
-    NOT PROVED: that [finish_build] and the emitter, applied to two final states that agree on every
-    input item, give the same files (the generated vftable items are determined by their owners'
-    resolved values, but that and the sortedness argument for list orders are not formalised).  The
-    order-independence of the real implementation, including the files, is decided by the monitor
-    of this property directly on the real code: exhaustive enumeration of first-round resolution
-    orders and sampled later rounds through the schedule hook, every permutation of module-addition
-    order through the API, repeated builds in one process and in fresh processes with real hash
-    seeds -- all compared byte for byte. *)
+    - [C09_pyxis_resolve_order_independent]: the same for the whole front half [pyxis_resolve]
+      (registration, loop, [finish_build]): same verdict class, and an accepted build resolves every
+      input item to the same value, whatever the order;
+    NOT PROVED: that the emitter, applied to two accepted final states that agree on every input
+    item, writes the same files (the generated vftable items are determined by their owners'
+    resolved values and the emitter sorts what it prints, but neither is formalised across two
+    states).  The order-independence of the real implementation, including the files, is decided
+    by the monitor of this property directly on the real code: exhaustive enumeration of first-round
+    resolution orders and sampled later rounds through the schedule hook, every permutation of
+    module-addition order through the API, repeated builds in one process and in fresh processes
+    with real hash seeds -- all compared byte for byte. *)
 From Coq Require Import List Bool Permutation NArith String.
 From PyxisModel Require Import Base Grammar SemTypes Registry Sem ScopeLemmas Confluence WholeBuild Monotone
      OrderIndep Examples.
@@ -89,6 +92,13 @@ Theorem C09_model_order_independent : forall ptr mods st0 o1 o2,
   same_verdict st0 (resolve_loop o1 fuel st0) (resolve_loop o2 fuel st0).
 Proof. exact pyxis_loop_order_independent. Qed.
 Print Assumptions C09_model_order_independent.
+
+Theorem C09_pyxis_resolve_order_independent : forall ptr mods st0 o1 o2,
+  input_state ptr mods = Ok st0 -> collision_free (st_reg st0) -> clean_stateb st0 = true ->
+  (forall l, Permutation (o1 l) l) -> (forall l, Permutation (o2 l) l) ->
+  same_build st0 (pyxis_resolve o1 ptr mods) (pyxis_resolve o2 ptr mods).
+Proof. exact pyxis_resolve_order_independent. Qed.
+Print Assumptions C09_pyxis_resolve_order_independent.
 
 (** non-vacuity: the input of Examples.v meets both side conditions *)
 Example C09_side_conditions_example :
